@@ -20,7 +20,11 @@ RULE = (
     "over all loop leaves L1, L2, with and without a loop else; each shape is followed by an observable statement inside def f(p, q, xs) and run under all 8 "
     "valuations with exceptions printed; shapes whose original does not terminate are dropped (counted). pointless "
     "family: 48 expression statements (pure / user call / unknown name / call hidden in comprehension, conditional "
-    "expression, f-string, subscript, attribute, default argument / raising builtin call inside try). oracle 1: "
+    "expression, f-string, subscript, attribute, default argument / raising builtin call inside try). callable family: a bare "
+    "call cb() where cb is one of 17 user definitions (pure / printing / raising / effect after an if-return / class with "
+    "and without a printing (inherited) __init__ / lambda / alias of print / generator) x 18 ways the name is also bound "
+    "elsewhere (module or local assignment, nested in if / try, for / with / walrus / tuple target, second def, global in "
+    "a function, import, comprehension, parameter, lambda parameter). oracle 1: "
     "core.is_blocking(stmt) true => the following statement is reached in no valuation; core.has_side_effect false => "
     "deleting the statement changes no output. oracle 2: nine consumer rules (and format_code on level 1) + execution. "
     "non-trivial = an analysis answered blocking / side-effect free, or a consumer changed the text"
@@ -151,7 +155,62 @@ POINTLESS = [
 RAISING = ["int('x')", "xs[5]", "{}['k']", "1 // (x - x)", "x.nope", "len(5)", "[][0]", "int(t0)"]
 
 
+# user-defined callables (family added after the seeded change C16-safe-callable-shadowed-name: a bare call through a
+# name that is both a side-effect-free def and rebound elsewhere was deleted): definition kind x rebinding form; the
+# call statement `cb()` sits between two observables
+CALLABLE_DEFS = {
+    "pure": "def cb():\n    return None\n",
+    "pure_arg": "def cb(a=1):\n    return a + 1\n",
+    "pure_branches": "def cb(a=1):\n    if a:\n        return 1\n    return 2\n",
+    "prints": "def cb():\n    print('cb')\n",
+    "notes": "def cb():\n    return note('cb')\n",
+    "returns_print": "def cb():\n    return print('cb')\n",
+    "raises": "def cb():\n    raise E('cb')\n",
+    "prints_after_if_return": "def cb(a=0):\n    if a:\n        return 0\n    print('cb')\n",
+    "prints_in_else": "def cb(a=0):\n    if a:\n        return 0\n    else:\n        print('cb')\n        return 1\n",
+    "calls_impure": "def helper():\n    print('helper')\ndef cb():\n    return helper()\n",
+    "mutates_global": "def cb():\n    LOG.append('cb')\n",
+    "class_plain": "class cb:\n    pass\n",
+    "class_printing_init": "class cb:\n    def __init__(self):\n        print('init')\n",
+    "class_inherits_printing_init": "class Base:\n    def __init__(self):\n        print('init')\nclass cb(Base):\n    pass\n",
+    "lambda_prints": "cb = lambda: print('cb')\n",
+    "alias_of_print": "cb = print\n",
+    "generator": "def cb():\n    print('never runs')\n    yield 1\n",
+}
+OTHER = "def other():\n    print('other')\n"
+# form -> (module-level text after the definition, text inside f before the call)
+REBINDINGS = {
+    "none": ("", ""),
+    "module_assign": ("cb = other\n", ""),
+    "module_assign_in_if": ("if LOG is not None:\n    cb = other\n", ""),
+    "module_assign_in_try": ("try:\n    cb = other\nexcept E:\n    pass\n", ""),
+    "module_for_target": ("for cb in (other,):\n    pass\n", ""),
+    "module_with_target": ("with cmv(other) as cb:\n    pass\n", ""),
+    "module_walrus": ("if (cb := other):\n    pass\n", ""),
+    "module_tuple_target": ("cb, unused_w = other, 0\n", ""),
+    "module_redefined": ("def cb():\n    print('second def')\n", ""),
+    "global_in_function": ("def rebind():\n    global cb\n    cb = other\nrebind()\n", ""),
+    "local_assign": ("", "cb = other\n"),
+    "local_for_target": ("", "for cb in (other,):\n    pass\n"),
+    "local_with_target": ("", "with cmv(other) as cb:\n    pass\n"),
+    "local_walrus": ("", "if (cb := other):\n    pass\n"),
+    "local_import": ("", "from os import getcwd as cb\n"),
+    "comprehension_target": ("", "w0 = [cb for cb in (other,)]\n"),
+    "parameter": ("def through(cb):\n    print('b2')\n    cb()\n    print('a2')\nthrough(other)\n", ""),
+    "lambda_parameter": ("through = lambda cb: (print('b2'), cb(), print('a2'))\nthrough(other)\n", ""),
+}
+PRE_CALLABLES = PRE + "@contextlib.contextmanager\ndef cmv(x):\n    yield x\n" + OTHER
+
+
+def callable_program(dkind, rkind):
+    mod, loc = REBINDINGS[rkind]
+    body = "print('before')\n" + loc + "cb()\nprint('after')\n"
+    return PRE_CALLABLES + CALLABLE_DEFS[dkind] + mod + "def f(p, q, xs):\n" + ind(body) + "    return 'end'\n" + DRV
+
+
 def units(tier):
+    for d in CALLABLE_DEFS:
+        yield {"t": "callable", "def": d}
     l1 = level1()
     for i in range(0, len(l1), 25):
         yield {"t": "shape", "level": 1, "shapes": l1[i : i + 25]}
@@ -284,10 +343,72 @@ def check_pointless(expr, raising, only=None):
     return out, info
 
 
+def check_callable(dkind, rkind, only=None):
+    from pyrefact import core, parsing
+
+    prog = callable_program(dkind, rkind)
+    orig = progs.run_prog(prog)
+    out, info = [], {"admitted": orig[0] == "ok", "nontrivial": []}
+    if orig[0] != "ok":
+        return out, info
+    desc0 = {"def": dkind, "rebinding": rkind}
+    tree = ast.parse(prog)
+    fdef = [n for n in tree.body if isinstance(n, ast.FunctionDef) and n.name == "f"][0]
+    stmt = [n for n in fdef.body if isinstance(n, ast.Expr) and ast.unparse(n) == "cb()"][0]
+    if only in (None, "core.has_side_effect"):
+        try:
+            se = core.has_side_effect(stmt, parsing.safe_callable_names(tree))
+        except Exception:  # noqa: BLE001
+            se = True
+        if not se:
+            info["nontrivial"].append(key_of(["cse", dkind, rkind]))
+            lines = prog.splitlines(keepends=True)
+            deleted = "".join(lines[: stmt.lineno - 1] + [" " * stmt.col_offset + "pass\n"] + lines[stmt.end_lineno :])
+            c = progs.compare(orig, deleted)
+            if c is not None:
+                out.append(violation("core.has_side_effect", "says_no_side_effect_but_deleting_changes_output",
+                                     "cb() with def %s, rebinding %s: safe_callable_names + has_side_effect say the call is pointless: %s" % (dkind, rkind, c[1]),
+                                     {**desc0, "entry": "core.has_side_effect"}))
+    # format_code only under safe: without it the naming rule renames the rebound names (C19's business, known there)
+    for entry in ["fixes.delete_pointless_statements", "fixes.delete_unused_functions_and_classes", "format_code:safe"]:
+        if only and entry != only:
+            continue
+        boot.clear_caches()
+        try:
+            if entry.startswith("format_code"):
+                new = progs.format_code(prog, {"safe": True} if entry.endswith("safe") else {})
+            else:
+                new = progs.call_rule(entry, prog)
+        except BaseException:  # noqa: BLE001
+            continue
+        if new == prog:
+            continue
+        info["nontrivial"].append(key_of(["cc", dkind, rkind, entry]))
+        c = progs.compare(orig, new)
+        if c is not None:
+            site = entry
+            if entry.startswith("format_code"):
+                site, _ = progs.culprit(prog, {"safe": True} if entry.endswith("safe") else {}, orig)
+            out.append(violation(site, c[0], "%s on cb() with def %s, rebinding %s: %s" % (entry, dkind, rkind, c[1]), {**desc0, "entry": entry}))
+    return out, info
+
+
 def run_unit(unit):
     tier = os.environ.get("MC_TIER", "quick")
     res = {"n": 0, "nontrivial": [], "viol": [], "stats": {}, "samples": []}
     st = res["stats"]
+    if unit["t"] == "callable":
+        for r in REBINDINGS:
+            v, info = check_callable(unit["def"], r)
+            if not info["admitted"]:
+                st["callable_program_not_admitted"] = st.get("callable_program_not_admitted", 0) + 1
+                continue
+            res["n"] += 1
+            res["nontrivial"].extend(info["nontrivial"])
+            res["viol"].extend(v)
+            if not v and info["nontrivial"] and not res["samples"]:
+                res["samples"].append({"def": unit["def"], "rebinding": r})
+        return res
     if unit["t"] == "shape":
         for shape in unit["shapes"]:
             v, info = check_shape(shape, unit["level"], with_fc=(unit["level"] == 1 or tier == "thorough"))
@@ -314,12 +435,16 @@ def run_unit(unit):
 
 
 def replay(desc):
+    if "rebinding" in desc:
+        return check_callable(desc["def"], desc["rebinding"], only=desc["entry"])[0]
     if "shape" in desc:
         return check_shape(desc["shape"], 1, with_fc=True, only=desc["entry"])[0]
     return check_pointless(desc["expr"], desc["raising"], only=desc["entry"])[0]
 
 
 def explain(desc):
+    if "rebinding" in desc:
+        return callable_program(desc["def"], desc["rebinding"])
     if "shape" in desc:
         return shape_program(desc["shape"])
     return pointless_program(desc["expr"], desc["raising"])
